@@ -110,6 +110,9 @@ class Normalizer:
         if tg == "call" and self.opcomm and len(a) == 3:
             # sign queries: TwoFloat::is_sign_positive(x) is the sign bit of x.hi (checked by C06/R12d);
             # is_sign_negative is its complement
+            if a[1] == "TwoFloat::recip":
+                # recip(x) is 1.0 / x (checked by C05/R11)
+                return mk("call", "op:div:f64:TwoFloat", mk("const", "f64", 0x3FF0000000000000), a[2])
             if a[1] == "TwoFloat::is_sign_positive":
                 return mk("call", "core::f64::<impl f64>::is_sign_positive", self._node(("field", a[2], 0)))
             if a[1] == "TwoFloat::is_sign_negative":
@@ -128,6 +131,21 @@ class Normalizer:
             return mk(*a)
         if tg == "eft_err":
             return self._eft_err(a[1], a[2], a[3])
+        if tg == "cmp" and self.opcomm and a[1] in ("eq", "ne") and a[2] == "f64":
+            # copysign(c, a) ==/!= copysign(c, b) for a non-zero finite constant c compares the sign bits
+            x, y = a[3], a[4]
+            if tag(x) == "call" and tag(y) == "call" and x[1] == y[1] == "libm::copysign" and len(x) == len(y) == 4 and x[2] is y[2] \
+                    and tag(x[2]) == "const" and (x[2][2] & ((1 << 63) - 1)) not in (0,) and ((x[2][2] >> 52) & 0x7ff) != 0x7ff:
+                sp = lambda w: mk("call", "core::f64::<impl f64>::is_sign_positive", w)
+                p, q = self._sorted2(sp(x[3]), sp(y[3]))
+                return mk("cmp", a[1], "bool", p, q)
+        if tg == "cmp" and self.opcomm and a[1] in ("eq", "ne") and a[2] == "bool":
+            x, y = a[3], a[4]
+            # !p == !q  <=>  p == q
+            if tag(x) == "not" and tag(y) == "not":
+                x, y = x[1], y[1]
+            p, q = self._sorted2(x, y)
+            return mk("cmp", a[1], "bool", p, q)
         return mk(*a)
 
     def _sorted2(self, x, y):
